@@ -51,6 +51,24 @@ def lock_release(ip, lock):
         hook(ip, lock)
 
 
+def _lock_acquire(ip, lock, args, kw):
+    """explicit acquire([blocking]): a non-blocking attempt may fail"""
+    st = ip.st
+    blocking = args[0] if args else kw.get('blocking', True)
+    truthy = ip.truth(blocking)
+    must_wait = truthy if isinstance(truthy, bool) else st.decide(truthy, 'acquire-blocking')
+    if not must_wait:
+        if st.choose(['acquired', 'busy'], 'try-lock') == 'busy':
+            return False
+    lock_acquire(ip, lock)
+    return True
+
+
+def _lock_release(ip, lock, args, kw):
+    lock_release(ip, lock)
+    return None
+
+
 def lock_held(st, lock):
     return st.ghost[lock.key]['held'] > 0
 
